@@ -658,7 +658,14 @@ func (m *RWMutex) RUnlock() {
 	}
 }
 
+// AtomicPoints: whether sync/atomic operations are scheduling points (they are single indivisible
+// steps either way; as points they only multiply the interleavings around them).
+var AtomicPoints = true
+
 func atomicPoint() {
+	if !AtomicPoints {
+		return
+	}
 	s := curM()
 	if s == nil {
 		return
